@@ -119,7 +119,7 @@ def run_case(tid, functional, method, P, f_tol, x_tol, maxiter, opts):
            "kind": kind, "opts": {k: v for k, v in opts.items()}}
     ev = []
     term = None
-    kw = dict(opts)
+    kw = {k: v for k, v in opts.items() if k != "starved"}
     if kind != "opt":
         term = Term(f_tol, x_tol)
         kw["custom_terminator"] = term
@@ -237,6 +237,16 @@ def cases(thorough, seed):
                     out.append(("minimize", "gd", P, None, None, 5, {"step": 0.3}))
                     out.append(("minimize", "gd", P, None, None, 0, {"step": 0.3}))
                     out.append(("minimize", "adam", P, None, None, 300, {"step": 0.05}))
+                    # stopping tolerances larger than |f(y0)| (the first comparison is against a dummy previous value) with steps
+                    # that overshoot: the budget runs out without any criterion being met between two real iterates
+                    f0 = float(P.obj(P.y0))
+                    # (parameters chosen so that on a correct implementation no criterion is met: gd with step 4 on a Hessian within [1, 1.5]
+                    #  multiplies the distance to the minimiser by 3..5 per step; adam's first step has length `step` per coordinate)
+                    big = 1.5 * abs(f0) + 0.05
+                    out.append(("minimize", "gd", P, None, None, 3, {"step": 4.0, "gamma": 0.0, "f_tol": big, "starved": True}))
+                    out.append(("minimize", "adam", P, None, None, 1, {"step": 2.0 + big, "f_tol": big, "starved": True}))
+                    out.append(("minimize", "adam", P, None, None, 1, {"step": 3.0, "f_tol": 10.0 * abs(f0) + 1.0, "x_tol": 1e-3, "starved": True}))
+                    out.append(("minimize", "adam", P, None, None, 2, {"step": 2.0 + big, "f_tol": big, "starved": True}))
     return out
 
 
@@ -293,7 +303,7 @@ def run(ctx):
     for t in traces:
         c = t["cfg"]
         last = t["ev"][-1]
-        must = (c["method"] in NONLIN + ["anderson_acc", "gd"]) and c["maxiter"] not in (0, 2, 3, 5) and last["a"] == "ret"
+        must = (c["method"] in NONLIN + ["anderson_acc", "gd"]) and c["maxiter"] not in (0, 2, 3, 5) and not c["opts"].get("starved") and last["a"] == "ret"
         if must and last["warned"]:
             ctx.violation("rootloop/%s/%s/warned-on-contractive" % (c["functional"], c["method"]),
                           "%s warned on a contractive well-conditioned problem (residual %.2e)" % (json.dumps(c), last["resid"]), {"cfg": c})
